@@ -7,7 +7,7 @@ CONSTANTS
   Opqs <- NoneSet
   LitTok = 2
   UnOps <- MinUn
-  BinOps <- MinBin
+  BinOps <- Bin7
   BoolOps <- AllBool
   CmpOps <- MinCmp
   ChainOps <- MinChain
